@@ -967,6 +967,7 @@ package spec
 //@ define mapDone(m map[string]Schema) bool = forall k string :: triggers(has(m, k), m[k]) && (has(m, k) ==> esDone[skey(m[k])])
 //@ define notDone(s Schema) bool = s.Not != nil ==> esDone[skey(*s.Not)]
 //@ define addPropsDone(s Schema) bool = s.AdditionalProperties != nil && s.AdditionalProperties.Schema != nil ==> esDone[skey(*s.AdditionalProperties.Schema)]
+//@ define depsDone(m Dependencies) bool = forall k string :: triggers(has(m, k), m[k]) && (has(m, k) && m[k].Schema != nil ==> esDone[skey(*m[k].Schema)])
 //@ define addItemsDone(s Schema) bool = s.AdditionalItems != nil && s.AdditionalItems.Schema != nil ==> esDone[skey(*s.AdditionalItems.Schema)]
 // the positions expandSchema has finished with when it reaches stage n of its walk (dependencies are not tracked)
 //@ define doneUpTo(s Schema, stage int) bool = (stage >= 1 ==> mapDone(s.Definitions) && itemsDone(s)) && (stage >= 2 ==> sliceDone(s.AllOf, len(s.AllOf)))
@@ -1087,6 +1088,8 @@ package spec
 //@   ensures  [C03,C02] items-visited @@ old(strict(resolver)) && result1 == nil && old(refStringV(target.Ref)) == "" && !old(isRootV(target.Ref)) ==> (result0.Items != nil && result0.Items.Schema != nil ==> esDone[skey(*result0.Items.Schema)])
 //@   ensures  [C03,C02] not-visited @@ old(strict(resolver)) && result1 == nil && old(refStringV(target.Ref)) == "" && !old(isRootV(target.Ref)) ==> notDone(*result0)
 //@   ensures  [C03,C02] additional-properties-visited @@ old(strict(resolver)) && result1 == nil && old(refStringV(target.Ref)) == "" && !old(isRootV(target.Ref)) ==> addPropsDone(*result0)
+//@   loop 6 invariant [C03,C02] old(strict(resolver)) ==> (forall k string :: triggers($seen6[k]) && ($seen6[k] && cur_target.Dependencies[k].Schema != nil ==> esDone[skey(*cur_target.Dependencies[k].Schema)]))
+//@   ensures  [C03,C02] dependencies-visited @@ old(strict(resolver)) && result1 == nil && old(refStringV(target.Ref)) == "" && !old(isRootV(target.Ref)) ==> depsDone(result0.Dependencies)
 //@   ensures  [C03,C02] additional-items-visited @@ old(strict(resolver)) && result1 == nil && old(refStringV(target.Ref)) == "" && !old(isRootV(target.Ref)) ==> addItemsDone(*result0)
 //@   ensures  [C09] skip-schemas-rebases-in-scope @@ old(resolver.options.SkipSchemas) && old(refStringV(target.Ref)) != "" && result1 == nil ==>
 //@               refStringV(result0.Ref) == denormStr(canonStr(normURI(old(refStringV(target.Ref)), scopeOf(target.ID, basePath))), resolver.context.basePath, resolver.context.rootID)
